@@ -5,7 +5,7 @@ against peer scripts that truncate / corrupt / mistype a valid session at every 
 compared with the extracted session model (oracle/c10) whose behaviour flags are set by probing;
 the property predicate (no crash, Connect returns after EOF, allocation bounded by the limit,
 oversize reply is an error) is evaluated directly on the observations."""
-import hashlib, json, os, random, re, struct
+import hashlib, json, os, random, re, struct, threading
 import vlib
 
 PID = "C10"
@@ -441,21 +441,270 @@ def judge_shutdown_handshake(sc, go):
     return fails
 
 
+# ------------------------------------------------------------------ device-service level (harness/driver/c10_test.go)
+# The property's anchors include internal/driver/device.go: the goroutines that the device's handlers start to consume
+# the client's messages (newReaderEventHandler / newROHandler -> processReport, onConnect, sendEdgeXEvent) run outside
+# handleGuarded, so a panic there on bytes a peer sent ends the whole service.  A real LLRPDevice against a scripted
+# reader; frames are built here with this file's own encoder.
+def tv(t, val):
+    return bytes([0x80 | t]) + val
+
+
+def tlvp(t, body):
+    return struct.pack(">HH", t, 4 + len(body)) + body
+
+
+def ts_param(kind, v):
+    """the two ways LLRP stamps things: UTCTimestamp (128) or, for a Reader without a UTC clock, Uptime (129)"""
+    return tlvp(128 if kind == "utc" else 129, struct.pack(">Q", v))
+
+
+CONN_OK = tlvp(256, struct.pack(">H", 0))
+UTC0 = 1700000000000000
+
+
+def ren_pl(kind, v, *events):
+    return tlvp(246, ts_param(kind, v) + b"".join(events))
+
+
+def gpi_event(port):
+    return tlvp(248, struct.pack(">HB", port, 0x80))
+
+
+TS_TV = [("FirstSeenUTC", 2), ("FirstSeenUptime", 3), ("LastSeenUTC", 4), ("LastSeenUptime", 5)]
+
+
+def tag_report(epc, mask, seq, wide=False, extras=True):
+    """TagReportData: EPC96 (or EPCData), optional fixed-size parameters in schema order; bit i of mask = TS_TV[i] present"""
+    body = tlvp(241, struct.pack(">H", 8 * len(epc)) + epc) if wide else tv(13, (epc + bytes(12))[:12])
+    if extras:
+        body += tv(9, struct.pack(">I", 1 + seq)) + tv(1, struct.pack(">H", 1 + seq % 4)) + tv(6, struct.pack(">b", -40 - seq % 30))
+    for i, (_, t) in enumerate(TS_TV):
+        if mask >> i & 1:
+            v = (UTC0 if i % 2 == 0 else 5000000) + 1000 * seq + (500 if i >= 2 else 0)
+            body += tv(t, struct.pack(">Q", v))
+    if extras:
+        body += tv(8, struct.pack(">H", 1 + seq))
+    return tlvp(240, body)
+
+
+def survey_report(kind, seq, n=2):
+    ents = b"".join(tlvp(243, struct.pack(">IIbb", 902750 + 500 * k, 500, -60 - k, -50 - k)
+                         + ts_param(kind, (UTC0 if kind == "utc" else 6000000) + seq + k)) for k in range(n))
+    return tlvp(242, tv(9, struct.pack(">I", 7)) + tv(14, struct.pack(">H", 1)) + ents)
+
+
+def mask_name(mask):
+    return "+".join(n for i, (n, _) in enumerate(TS_TV) if mask >> i & 1) or "no-timestamps"
+
+
+def dframe(typ, pl, mid=0, rep=0):
+    d = dict(typ=typ, id=mid, phex=pl.hex())
+    if rep:
+        d["rep"] = rep
+    return d
+
+
+def first_pl(kind):
+    return ren_pl(kind, UTC0 if kind == "utc" else 5000000, CONN_OK)
+
+
+def device_scenarios(thorough, rnd):
+    """-> list of dicts (the harness's JSON plus bookkeeping under '_')"""
+    out = []
+
+    def add(name, first, frames, src="", settle=0, reconnect=False, family="timestamps", well_formed=True):
+        sc = dict(name="device/" + name, first=first_pl(first).hex(), frames=frames, src=src, reconnect=reconnect)
+        if settle:
+            sc["settle_ms"] = settle
+        sc["_"] = dict(family=family, well_formed=well_formed, first=first)
+        out.append(sc)
+
+    # (1) every combination of UTC / Uptime stamps a tag can carry, after a connection event stamped either way, with
+    # or without a later event stamped the other way; reports with one tag, with several tags (the combination and its
+    # complement), and with RF survey entries stamped either way
+    classes = [("uptime", None), ("utc", "uptime"), ("utc", None)]
+    if thorough:
+        classes += [("uptime", "utc"), ("uptime", "uptime"), ("utc", "utc")]
+    for first, mid in classes:
+        for mask in range(16):
+            fr = []
+            if mid:
+                fr.append(dframe(63, ren_pl(mid, UTC0 + 7 if mid == "utc" else 5500000, gpi_event(2)), 100))
+            fr.append(dframe(61, tag_report(bytes([mask] * 12), mask, 1), 101))
+            fr.append(dframe(61, tag_report(bytes([mask, 7] * 4), mask, 2, wide=True, extras=False)
+                                 + tag_report(bytes([15 - mask] * 12), 15 - mask, 3), 102))
+            fr.append(dframe(61, survey_report("uptime" if mask & 1 else "utc", mask), 103))
+            if thorough:
+                fr.append(dframe(61, tag_report(b"\x01" * 12, mask, 4, extras=False) + survey_report("utc" if mask & 1 else "uptime", mask, 3), 104))
+            add("timestamps/first-%s/%s/%s" % (first, ("then-%s-event" % mid) if mid else "no-later-event", mask_name(mask)),
+                first, fr, reconnect=(mask in (0, 10)))
+    # ... and the smallest such sessions: one report, one tag, nothing but the EPC and the stamps
+    for first in ("uptime", "utc") if thorough else ("uptime",):
+        for mask in range(16):
+            add("single-tag/first-%s/%s" % (first, mask_name(mask)), first,
+                [dframe(61, tag_report(bytes([0xE0 + mask] * 12), mask, 1, extras=False), 110)])
+    # (2) the same messages cut short / with lying inner lengths, to the device's handlers: every prefix of the payload
+    # (the message length stays consistent), and every 16-bit field set to 0 and 0xFFFF
+    base_report = tag_report(b"\xAB" * 12, 15, 1) + survey_report("uptime", 1, 1)
+    base_event = ren_pl("uptime", 7000000, gpi_event(3), CONN_OK)
+    for first in ("uptime", "utc"):
+        for bname, typ, base in (("report", 61, base_report), ("event", 63, base_event)):
+            fr = [dframe(typ, base[:k], 200 + k) for k in range(len(base))]
+            add("truncated-%s/first-%s" % (bname, first), first, fr, family="hostile", well_formed=False)
+            fr = []
+            for o in range(0, len(base) - 1, 2 if not thorough else 1):
+                for v in (0, 0xFFFF):
+                    fr.append(dframe(typ, base[:o] + struct.pack(">H", v) + base[o + 2:], 400 + o))
+            add("corrupted-%s/first-%s" % (bname, first), first, fr, family="hostile", well_formed=False)
+    # (3) reports around the client's buffering limit (a tag with Uptime stamps only, many times over)
+    one = tag_report(b"\x11" * 12, 0b1010, 1, extras=False)
+    for first in ("uptime", "utc"):
+        for rname, rep in (("under-limit", LIMIT // len(one)), ("over-limit", LIMIT // len(one) + 1)):
+            add("large-report/%s/first-%s" % (rname, first), first, [dframe(61, one, 300, rep=rep), dframe(61, one, 301)],
+                family="large", settle=8000)
+    # (4) the reader misbehaves on the device's own SetReaderConfig (status error, a payload that is no parameter,
+    # another message type, closing instead): the device resets the connection and dials again
+    for src in ("status-error", "garbage", "wrong-type", "close"):
+        add("set-reader-config/%s" % src, "uptime", [dframe(61, tag_report(b"\x22" * 12, 0b0110, 1), 500)], src=src, settle=250,
+            reconnect=True, family="setup")
+    return out
+
+
+def device_crash_signature(log):
+    m = re.search(r"(panic: [^\n]*|fatal error: [^\n]*)", log)
+    what = m.group(1) if m else "process died"
+    fm = re.search(r"internal/driver\.(?:\(\*?\w+\)\.)?(\w+)", log)
+    if fm:
+        return "device-crash:%s" % fm.group(1), what
+    fm = re.search(r"pkg/llrp\.(?:\(\*?\w+\)\.)?(\w+)", log)
+    return "device-crash:%s" % (("llrp." + fm.group(1)) if fm else "unknown"), what
+
+
+def device_check(sc, go, crash_log):
+    """C10 at the device level, on the observations alone -> [(signature, text)]"""
+    if crash_log is not None:
+        sig, what = device_crash_signature(crash_log)
+        return [(sig, "the whole service process died while a real LLRPDevice consumed what the scripted reader sent in scenario %s "
+                      "(a goroutine started by the device's message handlers runs outside the client's panic guard): %s" % (sc["name"], what))]
+    fails = []
+    if go.get("error") or not go.get("setup"):
+        return [("device-not-set-up", "the device did not connect / negotiate / send its SetReaderConfig to the scripted reader: %s"
+                 % (go.get("error") or go.get("note")))]
+    if not sc["src"] and go["sent"] == len(sc["frames"]) and not go["sentinel"]:
+        fails.append(("device-stops-processing", "after the %d frames of scenario %s the device no longer published a well-formed event "
+                      "sent on the same connection (published: %d reports, %d events of %d expected values)"
+                      % (len(sc["frames"]), sc["name"], go["reports"], go["events"], go["expect"])))
+    if sc["reconnect"] and not go["redialed"]:
+        fails.append(("device-does-not-redial-after-eof", "the reader closed the stream; the device did not dial again within 5 s "
+                      "(its serving call did not return, or the management loop stopped)"))
+    return fails
+
+
+DEV_VARIANTS = [("00", "as found: readerStart never stored, processReport assigns through possibly-nil pointers"),
+                ("10", "readerStart stored, processReport assigns through possibly-nil pointers"),
+                ("11", "readerStart stored, processReport guards the pointers"),
+                ("01", "readerStart never stored, processReport guards the pointers")]
+
+
+def device_model(scs, answers, crash_of, abstr):
+    """run the extracted device model (oracle c10, request `dev`) on what the library's decoder makes of every scripted
+    message (abstr[i]: first message, then every frame), for each variant of the two code behaviours, and compare with
+    what happened: model panics <-> the process died; a survivor's reports had FirstSeenUTC recomputed <-> the model
+    did so.  -> (the variant that agrees with every observation or None, {variant: [disagreements]}, predictions)"""
+    usable = []
+    for i, sc in enumerate(scs):
+        a = answers.get(i)
+        if sc["src"] or not abstr.get(i):
+            continue
+        if a is not None and a.get("setup") and a.get("sent") == len(sc["frames"]):
+            usable.append((i, False, a))
+        elif a is None and i in crash_of:
+            usable.append((i, True, None))
+    reqs, idx = [], []
+    for i, dead, a in usable:
+        for v, _ in DEV_VARIANTS:
+            reqs.append("dev %s %s" % (v, ";".join(abstr[i])))
+            idx.append((i, v))
+    if not reqs:
+        return None, {}, {}
+    rc, lines = run_oracle(reqs)
+    if rc != 0 or len(lines) != len(reqs):
+        return None, {"oracle": ["oracle failed on dev requests (rc=%s, %d/%d)" % (rc, len(lines), len(reqs))]}, {}
+    pred = {}
+    for (i, v), l in zip(idx, lines):
+        pred[(i, v)] = dict(kv.split("=") for kv in l.split())
+    diffs = {v: [] for v, _ in DEV_VARIANTS}
+    for i, dead, a in usable:
+        for v, _ in DEV_VARIANTS:
+            m = pred[(i, v)]
+            if (m["panicked"] == "1") != dead:
+                diffs[v].append("%s: model %s, the process %s" % (scs[i]["name"], "panics" if m["panicked"] == "1" else "does not panic",
+                                                                  "died" if dead else "survived"))
+            elif not dead and (m["rewrote"] == "1") != bool(a.get("rewritten")):
+                diffs[v].append("%s: model rewrote FirstSeenUTC=%s, observed %s" % (scs[i]["name"], m["rewrote"], a.get("rewritten")))
+    agree = next((v for v, _ in DEV_VARIANTS if not diffs[v]), None)
+    return agree, diffs, pred
+
+
+def run_device_family(exe, tier, seed, only=None):
+    """-> (scenarios, answers, crashes, failures {sig: (text, scenario, observation, crash log, names)})"""
+    scs = device_scenarios(tier == "thorough", random.Random(seed + 41))
+    if only is not None:          # replay of one recorded scenario
+        scs = [dict(only, _=dict(family="replay", well_formed=False, first=""))]
+    wire = [{k: v for k, v in sc.items() if k != "_"} for sc in scs]
+    # what the library's decoder makes of every message (no device is started for this pass)
+    ab, _ = run_go(exe, [dict(w, abs_only=True) for w in wire], 300, test="TestVerifC10Driver", tag="da")
+    abstr = {i: a.get("abs") for i, a in ab.items() if a}
+    answers, crashes = run_go(exe, wire, 900, test="TestVerifC10Driver", tag="d")
+    crash_of = dict(crashes)
+    by_sig = {}
+    for i, sc in enumerate(scs):
+        go, cl = answers.get(i), crash_of.get(i)
+        if go is None and cl is None:
+            continue
+        fails = device_check(sc, go, cl)
+        if fails and cl is None:
+            # nothing died: a missing sentinel / re-dial is a matter of real time; it must show again when run alone
+            a2, c2 = run_go(exe, [wire[i]], 120, test="TestVerifC10Driver", tag="d2")
+            go, cl = a2.get(0), dict(c2).get(0)
+            fails = device_check(sc, go, cl) if (go is not None or cl is not None) else fails
+            answers[i] = go
+        for sig, text in fails:
+            size = sum(len(f["phex"]) * max(f.get("rep", 0), 1) for f in sc["frames"]) + (10 ** 7 if sc["src"] else 0)
+            if sig not in by_sig:
+                by_sig[sig] = [text, sc, go, cl, [], size]
+            elif size < by_sig[sig][5]:              # keep the smallest failing script as the replay
+                by_sig[sig][:4] = [text, sc, go, cl]
+                by_sig[sig][5] = size
+            by_sig[sig][4].append(sc["name"])
+    variant, vdiffs, pred = device_model(scs, answers, crash_of, abstr)
+    model = dict(variant=variant, variants={v: len(d) for v, d in vdiffs.items()}, compared=len(pred) // max(len(DEV_VARIANTS), 1))
+    if variant is None and pred and "model-differs:device" not in by_sig:
+        # no variant of the two modelled behaviours explains the observations
+        best = min(vdiffs, key=lambda v: len(vdiffs[v]))
+        i = next((k for k, sc in enumerate(scs) if vdiffs[best] and vdiffs[best][0].startswith(sc["name"] + ":")), 0)
+        by_sig["model-differs:device"] = ["no variant of the device model (Client/DeviceHostile.v: readerStart stored or not, processReport "
+                                          "guarding nil or not) agrees with every observation; closest %s: %s" % (best, "; ".join(vdiffs[best][:3])),
+                                          scs[i], answers.get(i), crash_of.get(i), [x.split(":")[0] for x in vdiffs[best][:40]], 0]
+    return scs, answers, crashes, {k: v[:5] for k, v in by_sig.items()}, model
+
+
 # ------------------------------------------------------------------ running (supervised)
-def run_go(exe, jsons, timeout):
+def run_go(exe, jsons, timeout, test="TestVerifC10", tag=""):
     """-> answers {index: dict}, crashes [(index, log)]; a crash is attributed to the scenario that
     was running: the first one without an answer line (the harness also prints its name)"""
     answers, crashes = {}, []
     todo = list(range(len(jsons)))
     while todo and len(crashes) < 40:
         os.makedirs(vlib.GEN, exist_ok=True)
-        base = os.path.join(vlib.GEN, "c10_%d_%d" % (os.getpid(), len(crashes)))
+        base = os.path.join(vlib.GEN, "c10%s_%d_%d" % (tag, os.getpid(), len(crashes)))
         with open(base + ".in", "w") as fh:
             fh.write("\n".join(json.dumps(jsons[i]) for i in todo) + "\n")
         env = dict(vlib.GOENV, VERIF_IN=base + ".in", VERIF_OUT=base + ".out", GOMEMLIMIT="2GiB")
         # address-space cap: a 4 GiB make() then fails inside this process only
-        rc, log = vlib.sh(["sh", "-c", "ulimit -v 4000000 2>/dev/null; exec %s -test.run '^TestVerifC10$' -test.count=1 -test.timeout %ds"
-                           % (exe, timeout)], cwd=vlib.BUILD, env=env, timeout=timeout + 30)
+        rc, log = vlib.sh(["sh", "-c", "ulimit -v 4000000 2>/dev/null; exec %s -test.run '^%s$' -test.count=1 -test.timeout %ds"
+                           % (exe, test, timeout)], cwd=vlib.BUILD, env=env, timeout=timeout + 30)
         lines = []
         if os.path.exists(base + ".out"):
             lines = [l for l in open(base + ".out").read().split("\n") if l.strip()]
@@ -477,6 +726,29 @@ def run_go(exe, jsons, timeout):
         crashes.append((todo[len(good)], log))
         todo = todo[len(good) + 1:]
     return answers, crashes
+
+
+def run_go_sharded(exe, jsons, timeout, shards=3):
+    """run_go over `shards` supervised processes at once (scenario i goes to process i mod shards); what is measured —
+    survival, results, per-process allocation counters — is per scenario and per process, so the split does not matter"""
+    idx = [list(range(k, len(jsons), shards)) for k in range(shards)]
+    results = [None] * shards
+
+    def work(k):
+        results[k] = run_go(exe, [jsons[i] for i in idx[k]], timeout, tag="s%d" % k)
+    ths = [threading.Thread(target=work, args=(k,)) for k in range(shards)]
+    for t in ths:
+        t.start()
+    for t in ths:
+        t.join()
+    answers, crashes = {}, []
+    for k in range(shards):
+        a, c = results[k] or ({}, [])
+        for j, v in a.items():
+            answers[idx[k][j]] = v
+        for j, log in c:
+            crashes.append((idx[k][j], log))
+    return answers, sorted(crashes)
 
 
 def crash_signature(sc, log):
@@ -674,11 +946,18 @@ def run(tier, seed, replay=None):
         "scenario against (2*limit per inbound frame + 1 MiB), so only allocations that grow with the claimed length are detected by "
         "measurement; limit+1 claims are compared through the model",
         "net.Pipe stands in for TCP; 'Connect returned' is measured with a watchdog (400 ms, re-measured with 3 s before a wedge is reported)",
+        "device-service level: in scope because the property's anchors name internal/driver/device.go — the goroutines started by the "
+        "device's message handlers consume the client's messages outside handleGuarded; loopback TCP and the scripted reader of "
+        "harness/driver/c10_test.go stand in for a Reader; 'still processing' / 're-dials' are measured in real time and re-measured alone "
+        "before they are reported",
         "a scenario in which the user issued Shutdown AND a complete CloseConnectionResponse arrived is not required to make Connect return "
         "after EOF (the documentation tells the caller to Close); if the stream ends or falls silent before a complete response, Connect and "
         "Shutdown must return (family shutdown-handshake, run through the client-core script runner, judged on observations only)",
     ]
+    import time
+    t_start = time.time()
     vlib.proof_part(res, PID)
+    t_proof = time.time()
     rc, log = vlib.build_oracle("c10")
     if rc != 0:
         res.violation("oracle-build", "oracle for C10 does not build: " + log[-800:], dict(kind="build"), False)
@@ -687,6 +966,18 @@ def run(tier, seed, replay=None):
     if not ok:
         res.violation("harness-build", "Go harness does not build against the repo: " + log[-1500:], dict(kind="build"), False)
         return res.finish()
+
+    okd, logd, exed = vlib.build_harness("driver", PID, ["c10_test.go"])
+    if not okd:
+        res.violation("harness-build", "Go harness (device level) does not build against the repo: " + logd[-1500:], dict(kind="build"), False)
+        return res.finish()
+    # the device-service level family runs (in its own supervised process) while the client level one does
+    dbox = {}
+    dth = None
+    if not replay or json.load(open(replay)).get("kind") == "device-scenario":
+        only = json.load(open(replay)).get("scenario") if replay else None
+        dth = threading.Thread(target=lambda: dbox.update(r=run_device_family(exed, tier, seed, only)))
+        dth.start()
 
     flags, probes, pans, pcr = probe_flags(exe)
     res.notes.append("behaviour flags of this tree (probed): " + ", ".join("%s=%s" % kv for kv in zip(FLAG_NAMES, flags))
@@ -700,7 +991,8 @@ def run(tier, seed, replay=None):
         scs = [s for s in scenarios("thorough", random.Random(rp.get("seed", seed))) if s.name in names] or \
               [s for s in scs if s.name in names]
     jsons = [s.to_json() for s in scs]
-    answers, crashes = run_go(exe, jsons, 1500 if tier == "thorough" else 600)
+    answers, crashes = run_go_sharded(exe, jsons, 1500 if tier == "thorough" else 600) if len(jsons) > 30 else \
+        run_go(exe, jsons, 1500 if tier == "thorough" else 600)
     crash_of = dict(crashes)
     # a wedge seen with the short watchdog is measured again with a long one
     again, per_sig = [], {}
@@ -780,12 +1072,51 @@ def run(tier, seed, replay=None):
     for sig, (text, hsc, g, found) in sorted(hs_sig.items()):
         res.violation(sig, "script %s: %s" % (hsc["id"], text), dict(kind="script", script=hsc, observed=g), found_input=found)
 
+    # device-service level
+    dev_evals, dev_wellformed = 0, 0
+    if dth is not None:
+        dth.join()
+        if "r" not in dbox:
+            res.violation("harness-run", "the device-level family did not run", dict(kind="harness"), False)
+        else:
+            dscs, dans, dcrashes, dby, dmodel = dbox["r"]
+            res.notes.append("device level: variant of the device model that agrees with every observation: %s (%s); "
+                             "disagreements per variant: %s; scenarios compared: %d" % (
+                                 dmodel["variant"], dict(DEV_VARIANTS).get(dmodel["variant"]), dmodel["variants"], dmodel["compared"]))
+            for i, dsc in enumerate(dscs):
+                a = dans.get(i)
+                if a is None and i not in dict(dcrashes):
+                    continue
+                evals += 1
+                dev_evals += 1
+                fam = "device-" + dsc["_"]["family"]
+                dist[fam] = dist.get(fam, 0) + 1
+                nontriv.add(dsc["name"])
+                if a and dsc["_"]["well_formed"]:
+                    if all(a.get("dec_ok") or [False]):
+                        dev_wellformed += 1
+                    elif "device-generator" not in dby:
+                        dby["device-generator"] = ["a message this check built as well-formed is refused by the library's decoder "
+                                                   "(frames %s)" % [k for k, x in enumerate(a.get("dec_ok") or []) if not x], dsc, a, None, [dsc["name"]]]
+            for sig, (text, dsc, a, cl, names) in sorted(dby.items()):
+                wire = {k: v for k, v in dsc.items() if k != "_"}
+                res.violation(sig, "scenario %s: %s (%d scenarios show it)" % (dsc["name"], text, len(names)),
+                              dict(kind="device-scenario", scenario_names=[dsc["name"]], scenario=wire, all_scenarios_with_this_signature=names[:40],
+                                   observed=a, crash_log=(cl or "")[-3000:], how="harness/driver/c10_test.go TestVerifC10Driver: one JSON line = this scenario",
+                                   device_model=dict(variant_agreeing_with_every_observation=dmodel["variant"],
+                                                     meaning=dict(DEV_VARIANTS).get(dmodel["variant"]),
+                                                     theorems="coq/Props/C10.v C10_device_goroutines_never_panic (holds for variants 00, 01, 11), "
+                                                              "C10_device_goroutines_never_panic_refuted (variant 10)")),
+                              found_input=sig not in ("device-generator", "device-not-set-up", "model-differs:device"))
+
     for sig, (text, sc, go, cl, ol, found, names) in sorted(by_sig.items()):
         rp = dict(kind="scenario", correspondence="C10/Connect-vs-session", scenario_names=[sc.name], scenario=sc.to_json(),
                   all_scenarios_with_this_signature=names[:40], observed=go, crash_log=(cl or "")[-3000:], expected=ol[:3000],
                   behaviour_flags=dict(zip(FLAG_NAMES, flags)))
         res.violation(sig, "scenario %s: %s (%d scenarios show it)" % (sc.name, text, len(names)), rp, found_input=found)
 
+    res.notes.append("wall seconds: proof part (waits for the shared Coq build lock) %.1f, everything else %.1f"
+                     % (t_proof - t_start, time.time() - t_proof))
     res.notes.append("harness milliseconds by family:stage: %s" % sorted(ms_by.items(), key=lambda kv: -kv[1])[:8])
     res.coverage.update(
         evaluations=evals, distinct_nontrivial=len(nontriv),
@@ -796,5 +1127,12 @@ def run(tier, seed, replay=None):
              "given another type / replaced by garbage, plus really oversize payloads, guarded-handler panics, close handshakes; "
              "distinct = scenario name (stage, mutation, parameter); non-trivial = everything but the unmodified sessions",
         samples=samples, input_distribution=dist, traces_validated_against_impl=evals, disagreements_checked=disagreements,
-        behaviour_flags=dict(zip(FLAG_NAMES, flags)), crashes_attributed=len(crashes), trusted_base=res.assumptions)
+        behaviour_flags=dict(zip(FLAG_NAMES, flags)), crashes_attributed=len(crashes),
+        device_level=dict(scenarios=dev_evals, model_variant=(dbox.get("r") or [None] * 5)[4], well_formed_scenarios_accepted_by_the_decoder=dev_wellformed,
+                          what="a real LLRPDevice (Driver.NewLLRPDevice) over loopback TCP against a scripted reader: connection events "
+                               "stamped with UTC or Uptime, reports whose tags carry every combination of FirstSeen/LastSeen UTC/Uptime "
+                               "parameters, RF survey entries stamped either way, every truncation / 16-bit corruption of such messages, "
+                               "reports around the buffering limit, misbehaviour on the device's own SetReaderConfig; judged: process "
+                               "survival, a sentinel event still published, the device dials again after the stream ended"),
+        trusted_base=res.assumptions)
     return res.finish()
